@@ -257,6 +257,9 @@ class Realign4dAlgorithm:
         if time_interp:
             self.timestamps = im4d.tr * np.arange(self.nscans)
             self.scanner_time = im4d.scanner_time
+            # slices are stacked along this axis of the array (not
+            # necessarily the third one)
+            self.slice_axis = im4d.slice_axis
             self.cbspline = _cspline_transform(im4d.get_fdata())
         else:
             self.cbspline = np.zeros(self.dims, dtype='double')
@@ -299,7 +302,8 @@ class Realign4dAlgorithm:
         X, Y, Z = scanner_coords(self.xyz, self.transforms[t].as_affine(),
                                  self.inv_affine, self.affine)
         if self.time_interp:
-            T = self.scanner_time(Z, self.timestamps[t])
+            T = self.scanner_time((X, Y, Z)[self.slice_axis],
+                                  self.timestamps[t])
             _cspline_sample4d(self.data[:, t],
                               self.cbspline,
                               X, Y, Z, T,
@@ -326,7 +330,8 @@ class Realign4dAlgorithm:
             X, Y, Z = scanner_coords(xyz, self.transforms[t].as_affine(),
                                      self.inv_affine, self.affine)
             if self.time_interp:
-                T = self.scanner_time(Z, self.timestamps[t])
+                T = self.scanner_time((X, Y, Z)[self.slice_axis],
+                                      self.timestamps[t])
                 _cspline_sample4d(res[:, :, :, t],
                                   self.cbspline,
                                   X, Y, Z, T,
